@@ -14,6 +14,10 @@ type GenOpts struct {
 	// from those the protocol suggests in the machine's present phase; the
 	// remaining steps draw uniformly from the whole alphabet.
 	Guided int
+	// FewCols: a quarter of the force-updates offer a state with one balance
+	// column less than the channel has participants (the unchecked forced update
+	// takes any state; consumers that persist or restore states leave this off)
+	FewCols bool
 }
 
 // GenCase draws a channel and an operation sequence.  To reach the deep
@@ -48,6 +52,9 @@ func GenCase(o GenOpts) *rapid.Generator[Case] {
 				if (op.K == Update || op.K == ForceUpdate) && rapid.Bool().Draw(t, "actorsel") {
 					op.I = rapid.IntRange(0, c.Cfg.N-1).Draw(t, "actor")
 				}
+			}
+			if o.FewCols && op.K == ForceUpdate && rapid.IntRange(0, 3).Draw(t, "fewcols") == 0 {
+				op.C = CandFewCols
 			}
 			c.Ops = append(c.Ops, op)
 			e.Step(op)
